@@ -1,6 +1,8 @@
 package metadata
 
 import (
+	"fmt"
+	"strconv"
 	"strings"
 
 	"github.com/llir/llvm/internal/enc"
@@ -40,8 +42,21 @@ func dispFlagsString(flags enum.DISPFlag) string {
 	return strings.Join(ss, " | ")
 }
 
-// TODO: fix string representation for all enums which are defined in the
-// grammar as `FooEnum | FooInt`, in the same way as dwarfTagString.
+// enumString returns the string representation of the given enum value of a
+// kind which is defined in the grammar as `FooEnum | FooInt`: the keyword if
+// there is one, the integer otherwise (e.g. `language: 9999`), in the same way
+// as dwarfTagString.
+func enumString(v fmt.Stringer) string {
+	s := v.String()
+	// The generated String methods return `TypeName(N)` for a value without
+	// keyword.
+	if i := strings.IndexByte(s, '('); i > 0 && strings.HasSuffix(s, ")") {
+		if _, err := strconv.ParseInt(s[i+1:len(s)-1], 10, 64); err == nil {
+			return s[i+1 : len(s)-1]
+		}
+	}
+	return s
+}
 
 // dwarfTagString returns the string representation of the given Dwarf tag.
 func dwarfTagString(tag enum.DwarfTag) string {
